@@ -274,18 +274,15 @@ func genC13(t *rapid.T) *C13Case {
 	for i := 0; i < nconst; i++ {
 		name := fmt.Sprintf("K%d", i)
 		var val []string
-		paren := false
 		n := rapid.IntRange(1, 4).Draw(t, "nval")
 		open := rapid.IntRange(0, 3).Draw(t, "parens") == 0
 		if open {
 			val = append(val, "(")
-			paren = true
 		}
 		for k := 0; k < n; k++ {
-			if len(defs) > 0 && rapid.IntRange(0, 3).Draw(t, "useearlier") == 0 {
-				d := defs[rapid.IntRange(0, len(defs)-1).Draw(t, "earlier")]
-				val = append(val, d.name)
-				paren = paren || d.paren
+			if rapid.IntRange(0, 3).Draw(t, "useother") == 0 {
+				// another constant: defined earlier (expanded), later (stays as written) or this one itself
+				val = append(val, fmt.Sprintf("K%d", rapid.IntRange(0, nconst-1).Draw(t, "other")))
 			} else {
 				val = append(val, rapid.SampledFrom(c13ValWords).Draw(t, "valword"))
 			}
@@ -293,25 +290,28 @@ func genC13(t *rapid.T) *C13Case {
 		if open {
 			val = append(val, ")")
 		}
-		single := len(val) == 1 && tokClass(val[0]) == 'w' && !strings.HasPrefix(val[0], "K")
 		pos := rapid.IntRange(0, len(f.Tops)).Draw(t, "constpos")
-		// a constant defined from earlier ones must come after them
-		minPos := 0
-		for j, tp := range f.Tops {
-			if tp.K == "const" {
-				for _, v := range val {
-					if v == tp.Const.Name && j+1 > minPos {
-						minPos = j + 1
-					}
-				}
-			}
-		}
-		if pos < minPos {
-			pos = minPos
-		}
 		top := &Top{K: "const", Const: &Const{Name: name, Val: val}}
 		f.Tops = append(f.Tops[:pos], append([]*Top{top}, f.Tops[pos:]...)...)
-		defs = append(defs, cdef{name, paren, single})
+	}
+	// what each constant expands to, in file order
+	{
+		consts := map[string][]string{}
+		for _, tp := range f.Tops {
+			if tp.K != "const" {
+				continue
+			}
+			v := expandToks(tp.Const.Val, consts)
+			consts[tp.Const.Name] = v
+			d := cdef{name: tp.Const.Name}
+			for _, x := range v {
+				if x == "(" {
+					d.paren = true
+				}
+			}
+			d.single = len(v) == 1 && tokClass(v[0]) == 'w'
+			defs = append(defs, d)
+		}
 	}
 	// a constant is never the last statement directly... (it may be; its value then simply extends to the end of the file)
 	// uses at documented sites (before and after the definition)
